@@ -149,33 +149,30 @@ func (chain *Blockchain) Extends(block, target *hotstuff.Block) bool {
 	return ok && current.Hash() == target.Hash()
 }
 
-// PruneToHeight prunes the blockchain to the given height.
-func (chain *Blockchain) PruneToHeight(committedHeight, height hotstuff.View) (forkedBlocks []*hotstuff.Block) {
+// PruneToHeight prunes the blockchain to the given height, and returns the blocks at the pruned
+// heights that are not on the branch of the committed block.
+func (chain *Blockchain) PruneToHeight(committed *hotstuff.Block, height hotstuff.View) (forkedBlocks []*hotstuff.Block) {
 	chain.mut.Lock()
 	defer chain.mut.Unlock()
 
-	committedViews := make(map[hotstuff.View]bool)
-	committedViews[committedHeight] = true
-	for h := committedHeight; h >= chain.pruneHeight; {
-		block, ok := chain.blockAtHeight[h]
-		if !ok {
-			break
-		}
+	// The committed branch is identified by hash, not by view: a faulty leader can
+	// propose several blocks in one view, and blockAtHeight only remembers one of them.
+	committedBlocks := make(map[hotstuff.Hash]bool)
+	committedBlocks[committed.Hash()] = true
+	for block := committed; ; {
 		parent, ok := chain.blocks[block.Parent()]
 		if !ok || parent.View() < chain.pruneHeight {
 			break
 		}
-		h = parent.View()
-		committedViews[h] = true
+		committedBlocks[parent.Hash()] = true
+		block = parent
 	}
 
 	for h := height; h > chain.pruneHeight; h-- {
-		if !committedViews[h] {
-			block, ok := chain.blockAtHeight[h]
-			if ok {
-				chain.logger.Debugf("PruneToHeight: found forked block: %v", block)
-				forkedBlocks = append(forkedBlocks, block)
-			}
+		block, ok := chain.blockAtHeight[h]
+		if ok && !committedBlocks[block.Hash()] {
+			chain.logger.Debugf("PruneToHeight: found forked block: %v", block)
+			forkedBlocks = append(forkedBlocks, block)
 		}
 		delete(chain.blockAtHeight, h)
 	}
